@@ -1857,10 +1857,12 @@ func (k *Kernel) handleStateMachineAction(ctx context.Context, s *kState, act tm
 		if existingVote == nil {
 			// First vote we have for this hash.
 			var err error
+			// The state machine may be voting in the committing view,
+			// whose validator set can differ from the voting view's.
 			updatedVote, err = k.cmspScheme.New(
 				act.Prevote.SignContent,
-				s.Voting.ValidatorSet.PubKeys,
-				string(s.Voting.ValidatorSet.PubKeyHash),
+				vrv.ValidatorSet.PubKeys,
+				string(vrv.ValidatorSet.PubKeyHash),
 			)
 			if err != nil {
 				k.log.Error(
@@ -1912,8 +1914,8 @@ func (k *Kernel) handleStateMachineAction(ctx context.Context, s *kState, act tm
 		var err error
 		updatedVote, err = k.cmspScheme.New(
 			act.Precommit.SignContent,
-			s.Voting.ValidatorSet.PubKeys,
-			string(s.Voting.ValidatorSet.PubKeyHash),
+			vrv.ValidatorSet.PubKeys,
+			string(vrv.ValidatorSet.PubKeyHash),
 		)
 		if err != nil {
 			k.log.Error(
